@@ -208,9 +208,14 @@ def run(ck: Checker):
         worklist_rule(ck)
     with ck.soft('C07.NUM (add_sum_pow2_m1 instantiated as it stands)'):
         transpose_rule(ck)
-    n_ts = basis_rules(ck, [SUM], public)
-    ck.need(n_ts >= 2, f'only {n_ts} basis comparisons found in summation.py (5 on the pinned tree)')
-    ck.floor('C07.BASIS-REACH', 10)
+    ck.rule('C07.BASIS', 'every public function of the summation module that takes `basis`, instantiated with the basis spelled as a string (upper / lower case) and as the enum member for a range of sizes: only gates of the requested basis are created, and the result is still right')
+    num_folds.fold_basis(ck, 'C07.BASIS')
+    ck.floor('C07.BASIS', 4)
+    # the two shape rules about the same clause (typestate of `basis`, reachable gate kinds) know one way of writing the dispatch
+    with ck.soft('C07.BASIS (functions instantiated per basis spelling)'):
+        n_ts = basis_rules(ck, [SUM], public)
+        ck.need(n_ts >= 2, f'only {n_ts} basis comparisons found in summation.py (5 on the pinned tree)')
+        ck.floor('C07.BASIS-REACH', 10)
     R.check_add_only(ck, 'C07.ADD-ONLY', [SUM, R.ARITH + '._utils'])
     R.check_fresh_labels(ck, 'C07.ADD-ONLY', [SUM])
     R.check_fresh_generated(ck, 'C07.ADD-ONLY', [SUM])
